@@ -206,7 +206,11 @@ func (f *frame) staticCall(in ssa.Instruction, callee *ssa.Function, args, binds
 	w := e.w
 	if nat, ok := natives[calleeName(callee)]; ok {
 		e.trusted[calleeName(callee)]++
-		return nat(f, in, callee, args, pc, h, nm, resT)
+		saved := e.condAssume
+		e.condAssume = true
+		ok := nat(f, in, callee, args, pc, h, nm, resT)
+		e.condAssume = saved
+		return ok
 	}
 	if isExitFunc(callee) {
 		f.safetyOb("noexit", pc, "false", pos, in)
@@ -862,6 +866,23 @@ func (f *frame) applyContract(in ssa.Instruction, callee *ssa.Function, con *Con
 			rets = []Val{rv}
 		}
 	}
+	// what the callee allocated (objects newer than the watermark) holds whatever the callee stored there: the components
+	// reachable by type from the results get a new version that agrees with the old one on every pre-existing object only.
+	// (Without this the postcondition constrains the *old* array at a fresh index, which contradicts the allocation axiom
+	// below whenever a fresh object holds a reference newer than an earlier watermark: every later path became vacuous.)
+	{
+		var rts []types.Type
+		res := callee.Signature.Results()
+		for i := 0; i < res.Len(); i++ {
+			rts = append(rts, res.At(i).Type())
+		}
+		// ... and whatever those objects hold was allocated no later than the end of the call
+		for _, nv := range f.havocFreshRegion(h, rts, water) {
+			if after := e.water(); after != water {
+				e.assume(fmt.Sprintf("(forall ((r Int)) (! (<= (select %s r) %s) :pattern ((select %s r))))", nv, after, nv))
+			}
+		}
+	}
 	env.heap = h
 	resultEnv(env, callee.Signature, rets)
 	for _, c := range con.Ensures {
@@ -1154,7 +1175,11 @@ func (f *frame) invoke(in ssa.Instruction, c *ssa.CallCommon, recv Val, args []V
 	mname := c.Method.Name()
 	if nat, ok := invokeNatives[mname+"/"+sigShape(c.Method.Type().(*types.Signature))]; ok {
 		e.trusted["invoke "+mname]++
-		return nat(f, in, c, r, args, pc, h, nm, resT)
+		saved := e.condAssume
+		e.condAssume = true
+		ok := nat(f, in, c, r, args, pc, h, nm, resT)
+		e.condAssume = saved
+		return ok
 	}
 	e.unmod["invoke "+key]++
 	mods, all := e.w.invokeMods(c.Method, c.Value.Type())
@@ -1567,6 +1592,79 @@ func (w *World) inlinable(fn *ssa.Function) bool {
 		}
 	}
 	return n <= inlineMaxInstrs
+}
+
+// havocFreshRegion gives the components of the struct types reachable from ts (through pointer fields, three levels) a new
+// version that is unconstrained at references newer than water and unchanged at all others.
+func (f *frame) havocFreshRegion(h *Heap, ts []types.Type, water string) (refArrays []string) {
+	e := f.e
+	seen := map[string]bool{}
+	comps := map[string]bool{}
+	var walk func(t types.Type, depth int)
+	walk = func(t types.Type, depth int) {
+		pt, ok := under(t).(*types.Pointer)
+		if !ok {
+			return
+		}
+		st, ok := under(pt.Elem()).(*types.Struct)
+		if !ok {
+			return
+		}
+		key := tname(pt.Elem())
+		if seen[key] || depth > 3 {
+			return
+		}
+		seen[key] = true
+		var pairs [][2]string
+		e.objComps(&Loc{Kind: LObj, Ref: "0", T: pt.Elem()}, &pairs)
+		for _, p := range pairs {
+			comps[p[0]] = true
+		}
+		var fields func(st *types.Struct)
+		fields = func(st *types.Struct) {
+			for i := 0; i < st.NumFields(); i++ {
+				ft := st.Field(i).Type()
+				if s2, ok := under(ft).(*types.Struct); ok {
+					fields(s2)
+				} else {
+					walk(ft, depth+1)
+				}
+			}
+		}
+		fields(st)
+	}
+	for _, t := range ts {
+		walk(t, 0)
+	}
+	var ks []string
+	for k := range comps {
+		ks = append(ks, k)
+	}
+	sort.Strings(ks)
+	for _, k := range ks {
+		so := e.comps[k]
+		if !strings.HasPrefix(so, "(Array Int ") {
+			continue
+		}
+		old := h.m[k]
+		if old == "" {
+			if h.pending(k) {
+				old = e.pendSym(h, k, so)
+			} else {
+				old = e.initial(k)
+			}
+		}
+		nv := e.fresh("Hfr."+k, so)
+		e.useQuant = true
+		e.assume(fmt.Sprintf("(forall ((r Int)) (! (=> (<= r %s) (= (select %s r) (select %s r))) :pattern ((select %s r))))", water, nv, old, nv))
+		h.m[k] = nv
+		h.dirty[k] = true
+		lt, hasT := e.leafT[k]
+		if so == "(Array Int Int)" && (e.refComp[k] || strings.HasSuffix(k, ".b") || (hasT && isRefType(lt) && !strings.HasSuffix(k, ".l") && !strings.HasSuffix(k, ".c") && !strings.HasSuffix(k, ".o"))) {
+			refArrays = append(refArrays, nv)
+		}
+	}
+	return refArrays
 }
 
 // assumeHeapBelow: every reference stored in the heap h was allocated no later than the watermark (an invariant of
